@@ -14,7 +14,12 @@
 (* A MEMBER is a record [k, n, lo, hi, sub]:                               *)
 (*   k    kind (a scalar kind of ScalarKinds, or "enum", "array", "struct",*)
 (*        "union", "anonstruct", "anonunion", "callback", "cbref",         *)
-(*        "unknown", "ref")                                                *)
+(*        "unknown" (a member the GIR types as void: no C declaration),    *)
+(*        "hid3"/"hid8"/"hid12"/"hid16" (a by-value member whose type the  *)
+(*        GIR does not describe: <field introspectable="0"><type c:type=   *)
+(*        ".."/></field>, what g-ir-scanner writes for `struct timeval tv` *)
+(*        or `long double`; the C declaration exists and has size/         *)
+(*        alignment 3/1, 8/8, 12/4, 16/16), "ref")                         *)
 (*   n    element count of a fixed-size array / index into the environment *)
 (*        of named declarations for "ref"                                  *)
 (*   lo,hi  RANKS of the smallest and largest enumerator of an "enum"      *)
@@ -66,8 +71,10 @@ ValidRanks == EvenRanks \cup {r + 1 : r \in (EvenRanks \ (Adjacent \cup {2 * Len
 \* C type of each scalar kind: <<size, alignment>> (natural alignment for every scalar)
 C1 == {"int8", "uint8", "char", "uchar"}
 C2 == {"int16", "uint16", "short", "ushort"}
-C4 == {"int32", "uint32", "int", "uint", "float", "boolean", "unichar"}     \* gboolean = int, gunichar = guint32
+C4 == {"int32", "uint32", "int", "uint", "float", "boolean", "unichar",      \* gboolean = int, gunichar = guint32
+       "gid_t", "pid_t", "socklen_t", "uid_t"}
 C8 == {"int64", "uint64", "long", "ulong", "ssize", "size", "intptr", "uintptr", "double", "gtype",   \* GType = gsize
+       "off_t", "time_t", "dev_t",
        "pointer", "utf8", "recptr", "arrptr", "glist"}                      \* every object pointer
 ScalarKinds == C1 \cup C2 \cup C4 \cup C8
 CSize(k) == IF k \in C1 THEN 1 ELSE IF k \in C2 THEN 2 ELSE IF k \in C4 THEN 4 ELSE 8
@@ -82,36 +89,46 @@ EnumAbi(lo, hi) ==
 RoundUp(n, a) == ((n + a - 1) \div a) * a
 
 AUnk == [known |-> FALSE, size |-> 0, align |-> 0, offs |-> <<>>]
+\* members whose C type exists but is not described by the GIR: <<size, alignment>> of the C type
+HidKinds == {"hid3", "hid8", "hid12", "hid16"}
+HidSA(k) == CASE k = "hid3" -> <<3, 1>> [] k = "hid8" -> <<8, 8>> [] k = "hid12" -> <<12, 4>> [] OTHER -> <<16, 16>>
+AnonKinds == {"anonstruct", "anonunion"}
 IsStructish(k) == k \in {"struct", "anonstruct"}
 IsUnionish(k)  == k \in {"union", "anonunion"}
 
-RECURSIVE AbiSA(_), AbiStructFold(_, _, _, _, _), AbiUnionFold(_, _, _, _)
-\* size and alignment of one member type
-AbiSA(m) ==
+RECURSIVE AbiSAx(_, _), AbiStructFold(_, _, _, _, _, _), AbiUnionFold(_, _, _, _, _)
+\* size and alignment of one member type.  see = TRUE: with the C declarations of the hidden kinds
+\* in view (what the C compiler knows); see = FALSE: from the GIR alone (what the typelib compiler
+\* can know) -- a hidden member then has unknown size.
+AbiSAx(m, see) ==
     CASE m.k \in ScalarKinds -> [known |-> TRUE, size |-> CSize(m.k), align |-> CSize(m.k)]
       [] m.k = "enum" -> LET e == EnumAbi(m.lo, m.hi) IN [known |-> TRUE, size |-> e.size, align |-> e.size]
       [] m.k \in {"callback", "cbref"} -> [known |-> TRUE, size |-> 8, align |-> 8]       \* function pointer
-      [] m.k = "array" -> LET e == AbiSA(m.sub[1]) IN
+      [] m.k = "array" -> LET e == AbiSAx(m.sub[1], see) IN
                           IF e.known THEN [known |-> TRUE, size |-> m.n * e.size, align |-> e.align]
                           ELSE [known |-> FALSE, size |-> 0, align |-> 0]
-      [] IsStructish(m.k) -> LET L == AbiStructFold(m.sub, 1, 0, 1, <<>>) IN [known |-> L.known, size |-> L.size, align |-> L.align]
-      [] IsUnionish(m.k) -> LET L == AbiUnionFold(m.sub, 1, 0, 1) IN [known |-> L.known, size |-> L.size, align |-> L.align]
-      [] OTHER -> [known |-> FALSE, size |-> 0, align |-> 0]                              \* "unknown"
+      [] IsStructish(m.k) -> LET L == AbiStructFold(m.sub, 1, 0, 1, <<>>, see) IN [known |-> L.known, size |-> L.size, align |-> L.align]
+      [] IsUnionish(m.k) -> LET L == AbiUnionFold(m.sub, 1, 0, 1, see) IN [known |-> L.known, size |-> L.size, align |-> L.align]
+      [] m.k \in HidKinds /\ see -> [known |-> TRUE, size |-> HidSA(m.k)[1], align |-> HidSA(m.k)[2]]
+      [] OTHER -> [known |-> FALSE, size |-> 0, align |-> 0]                              \* "unknown", hidden unseen
+AbiSA(m) == AbiSAx(m, FALSE)
 \* struct: each member at the next multiple of its alignment; alignment = max; tail padding
-AbiStructFold(ms, i, off, al, offs) ==
+AbiStructFold(ms, i, off, al, offs, see) ==
     IF i > Len(ms) THEN [known |-> TRUE, size |-> RoundUp(off, al), align |-> al, offs |-> offs]
-    ELSE LET sa == AbiSA(ms[i]) IN
+    ELSE LET sa == AbiSAx(ms[i], see) IN
          IF ~sa.known THEN AUnk
-         ELSE LET o == RoundUp(off, sa.align) IN AbiStructFold(ms, i + 1, o + sa.size, Max(al, sa.align), Append(offs, o))
+         ELSE LET o == RoundUp(off, sa.align) IN AbiStructFold(ms, i + 1, o + sa.size, Max(al, sa.align), Append(offs, o), see)
 \* union: every member at 0; size = largest member padded to the largest alignment
-AbiUnionFold(ms, i, sz, al) ==
+AbiUnionFold(ms, i, sz, al, see) ==
     IF i > Len(ms) THEN [known |-> TRUE, size |-> RoundUp(sz, al), align |-> al, offs |-> [j \in 1..Len(ms) |-> 0]]
-    ELSE LET sa == AbiSA(ms[i]) IN
-         IF ~sa.known THEN AUnk ELSE AbiUnionFold(ms, i + 1, Max(sz, sa.size), Max(al, sa.align))
+    ELSE LET sa == AbiSAx(ms[i], see) IN
+         IF ~sa.known THEN AUnk ELSE AbiUnionFold(ms, i + 1, Max(sz, sa.size), Max(al, sa.align), see)
 
-AbiStruct(ms) == AbiStructFold(ms, 1, 0, 1, <<>>)
-AbiUnion(ms)  == AbiUnionFold(ms, 1, 0, 1)
+AbiStruct(ms) == AbiStructFold(ms, 1, 0, 1, <<>>, FALSE)
+AbiUnion(ms)  == AbiUnionFold(ms, 1, 0, 1, FALSE)
 AbiLayout(kind, ms) == IF kind = "union" THEN AbiUnion(ms) ELSE AbiStruct(ms)
+\* the same with the hidden C types in view: the layout the C compiler gives
+CLayout(kind, ms) == IF kind = "union" THEN AbiUnionFold(ms, 1, 0, 1, TRUE) ELSE AbiStructFold(ms, 1, 0, 1, <<>>, TRUE)
 \* offsets of the members before the first one of unknown size (still well defined)
 RECURSIVE KnownPrefix(_, _)
 KnownPrefix(ms, i) == IF i > Len(ms) \/ ~AbiSA(ms[i]).known THEN i - 1 ELSE KnownPrefix(ms, i + 1)
@@ -120,7 +137,10 @@ AbiPrefixOffs(ms) == AbiStruct(SubSeq(ms, 1, KnownPrefix(ms, 1))).offs
 \* classes of members used in `detail`/`sig` of rejected observations
 RECURSIVE HasKind(_, _)
 HasKind(ms, K) == \E i \in 1..Len(ms) : ms[i].k \in K \/ HasKind(ms[i].sub, K)
-HasAnon(ms) == HasKind(ms, {"anonstruct", "anonunion"})
+HasAnon(ms) == HasKind(ms, AnonKinds)
+\* a hidden member that is not pointer-shaped (the implementation sizes every such member as a pointer)
+HasHidden(ms) == HasKind(ms, HidKinds \ {"hid8"})
+HasAnyHidden(ms) == HasKind(ms, HidKinds)
 \* value ranges for which gcc needs 64 bits of storage
 EnumWide(lo, hi) == EnumAbi(lo, hi).size = 8
 RECURSIVE HasWideEnum(_)
@@ -140,9 +160,10 @@ EnumRangeClass(lo, hi) ==
 ParserTag(k) ==
     CASE k \in {"int8", "char"} -> "INT8"   [] k \in {"uint8", "uchar"} -> "UINT8"
       [] k \in {"int16", "short"} -> "INT16" [] k \in {"uint16", "ushort"} -> "UINT16"
-      [] k \in {"int32", "int"} -> "INT32"   [] k \in {"uint32", "uint"} -> "UINT32"
-      [] k \in {"int64", "long", "ssize", "intptr"} -> "INT64"
-      [] k \in {"uint64", "ulong", "size", "uintptr"} -> "UINT64"
+      [] k \in {"int32", "int", "pid_t"} -> "INT32"
+      [] k \in {"uint32", "uint", "gid_t", "socklen_t", "uid_t"} -> "UINT32"
+      [] k \in {"int64", "long", "ssize", "intptr", "off_t", "time_t"} -> "INT64"
+      [] k \in {"uint64", "ulong", "size", "uintptr", "dev_t"} -> "UINT64"
       [] k = "float" -> "FLOAT" [] k = "double" -> "DOUBLE" [] k = "boolean" -> "BOOLEAN"
       [] k = "unichar" -> "UNICHAR" [] k = "gtype" -> "GTYPE"
       [] OTHER -> "VOID"
@@ -205,12 +226,20 @@ IFatal     == [st |-> "fatal", size |-> -1, align |-> -1]
 \* the parser drops anonymous <record>/<union> children of a <record>/<union> (start_struct/
 \* start_union push the node, state_switch_end_struct_or_union pops it; it is never appended to
 \* the parent's members), so they take part neither in the layout nor in the field list
-ParsedMembers(ms) == SelectSeq(ms, LAMBDA m : m.k \notin {"anonstruct", "anonunion"})
+ParsedMembers(ms) == SelectSeq(ms, LAMBDA m : m.k \notin AnonKinds)
+\* offsets of the parsed members put back at their positions in ms; an anonymous member has no
+\* FieldBlob of its own: -2 ("absent")
+RECURSIVE ExpandOffs(_, _, _, _)
+ExpandOffs(ms, offs, i, j) ==
+    IF i > Len(ms) THEN <<>>
+    ELSE IF ms[i].k \in AnonKinds THEN <<-2>> \o ExpandOffs(ms, offs, i + 1, j)
+    ELSE <<(IF j <= Len(offs) THEN offs[j] ELSE -2)>> \o ExpandOffs(ms, offs, i + 1, j + 1)
 
 RECURSIVE ImplSA(_, _, _), ImplStructFold(_, _, _, _, _, _, _, _), ImplUnionFold(_, _, _, _, _, _, _), ImplNode(_, _, _)
 \* get_field_size_alignment / get_type_size_alignment / get_interface_size_alignment
 ImplSA(env, vis, m) ==
     CASE m.k = "callback" -> IOk(FfiSize("POINTER"), FfiSize("POINTER"))                \* field->callback
+      [] m.k \in HidKinds -> IOk(FfiSize("POINTER"), FfiSize("POINTER"))                 \* start_field: introspectable="0" => parse_type("gpointer")
       [] IsPointerKind(m.k) -> IOk(FfiSize("POINTER"), FfiSize("POINTER"))              \* type->is_pointer
       [] m.k = "array" -> LET e == ImplSA(env, vis, m.sub[1]) IN                        \* has_size, not a pointer
                           IF e.st = "ok" THEN IOk(m.n * e.size, e.align) ELSE e
@@ -270,32 +299,44 @@ Encode(L, warningsFatal) ==
 (***************************************************************************)
 (* PROPERTY LAYER, continued: clauses over one observation                 *)
 (*   [kind, ms, produced, tl: [size, align, offs], gcc: [ok, size, align,  *)
-(*    offs]]   (tl.size as a signed 32-bit number)                         *)
+(*    offs]]                                                               *)
+(* tl.size is the stored guint32 read as a signed 32-bit number; offs has  *)
+(* one entry per member of ms: the struct_offset of the FieldBlob of that  *)
+(* member, -2 when the typelib has no field for it.  gcc.offs[j] is        *)
+(* offsetof() of member j (of its first inner field for an anonymous       *)
+(* member).  The format has no FieldBlob for an anonymous struct/union     *)
+(* member, so the property demands no offset entry at those positions; the *)
+(* member still counts for size, alignment and the offsets behind it.      *)
 (***************************************************************************)
 ValidAlign(a) == a \in {1, 2, 4, 8, 16, 32}
 UnknownMarker(tl) == ~ValidAlign(tl.align) /\ tl.size \in {0, -1}
 Known(r) == AbiLayout(r.kind, r.ms).known
+OffsAgree(ms, a, g) == /\ Len(a) = Len(ms) /\ Len(g) = Len(ms)
+                       /\ \A j \in 1..Len(ms) : ms[j].k \notin AnonKinds => a[j] = g[j]
+SameLayout(ms, t, g) == t.size = g.size /\ t.align = g.align /\ OffsAgree(ms, t.offs, g.offs)
 
 \* the property, literally: what the typelib stores is what the C compiler gives the declaration
-TypelibEqualsGcc(r) == (r.produced /\ r.gcc.ok) =>
-                          /\ r.tl.size = r.gcc.size
-                          /\ r.tl.align = r.gcc.align
-                          /\ r.tl.offs = r.gcc.offs
+TypelibEqualsGcc(r) == (Known(r) /\ r.produced /\ r.gcc.ok) => SameLayout(r.ms, r.tl, r.gcc)
 \* a declaration whose members all have known sizes is compiled at all
 Compiled(r) == Known(r) => r.produced
-\* unknown member => unknown layout, never a concrete one.  The members from the first unsizable
-\* one on have no defined offset (0xFFFF); earlier ones may be marked unknown or carry their ABI
-\* offset.  Refusing to produce a typelib records nothing wrong: allowed.
-UnknownRecordedAsUnknown(r) == (~Known(r) /\ r.produced) =>
+\* unknown member => unknown layout, never a wrong one.  Recorded as unknown: the size/alignment
+\* marker; the members from the first unsizable one on have no defined offset (0xFFFF); earlier
+\* ones may be marked unknown or carry their ABI offset.  Refusing to produce a typelib records
+\* nothing wrong: allowed.  A concrete layout that is the C compiler's is not a wrong one: allowed.
+RecordedUnknown(r) ==
     /\ UnknownMarker(r.tl)
-    /\ IF r.kind = "union" THEN \A j \in 1..Len(r.tl.offs) : r.tl.offs[j] \in {0, 65535}
+    /\ Len(r.tl.offs) = Len(r.ms)
+    /\ IF r.kind = "union" THEN \A j \in 1..Len(r.tl.offs) : r.tl.offs[j] \in {0, 65535} \/ r.ms[j].k \in AnonKinds
        ELSE LET pre == AbiPrefixOffs(r.ms) IN
-            /\ Len(r.tl.offs) = Len(r.ms)
-            /\ \A j \in 1..Len(r.tl.offs) : IF j <= Len(pre) THEN r.tl.offs[j] \in {pre[j], 65535} ELSE r.tl.offs[j] = 65535
+            \A j \in 1..Len(r.tl.offs) : \/ r.ms[j].k \in AnonKinds
+                                           \/ IF j <= Len(pre) THEN r.tl.offs[j] \in {pre[j], 65535} ELSE r.tl.offs[j] = 65535
+UnknownRecordedAsUnknown(r) == (~Known(r) /\ r.produced) =>
+    \/ RecordedUnknown(r)
+    \/ r.gcc.ok /\ SameLayout(r.ms, r.tl, r.gcc)
 \* calibration of the ABI transcription itself (a failure is a machinery failure, never a violation)
-SpecEqualsGcc(r) == /\ r.gcc.ok = Known(r)
-                    /\ r.gcc.ok => LET L == AbiLayout(r.kind, r.ms) IN
-                                   L.size = r.gcc.size /\ L.align = r.gcc.align /\ L.offs = r.gcc.offs
+SpecEqualsGcc(r) == LET L == CLayout(r.kind, r.ms) IN
+                    /\ r.gcc.ok = L.known
+                    /\ r.gcc.ok => (L.size = r.gcc.size /\ L.align = r.gcc.align /\ L.offs = r.gcc.offs)
 
 \* enumerations: [lo, hi, produced, storage (GITypeTag number), gcc: [size, signed]]
 EnumSizeEqualsGcc(r) == r.produced => StorageSize(r.storage) = r.gcc.size
